@@ -94,6 +94,8 @@ def act_line(a, idx, last):
         return "enacts", "source", "copy %s into vfsink%d" % (ref_text(r, alt), idx)
     if v == "need":
         return "preacts", "state", "go %s if %s == %d" % (last, ref_text(r, alt), idx)
+    if v == "let":
+        return "beacts", "state", "let me if %s == %d" % (ref_text(r, alt), idx)
     if v == "do":
         an = list(a["an"])
         an[-1] = "%s%d" % (an[-1], idx)     # deed instances are numbered (on the last token) to keep their names unique
@@ -126,6 +128,7 @@ def script(c, acts):
     out.append("    frame %s in %s%s" % (c["f1"], c["f0"], via(c["ni"])))
     if c["aux"]:
         out.append("      aux %s as %s%s" % (c["S"], c["tag"], via(c["ci"])))
+        out.append("      aux %s as %s%s" % (c["S"], c["tag2"], via(c["ci"])))      # the same moot framer cloned twice
         out.append("      go fz if aux %s is done" % c["tag"])
     else:
         out.extend("      " + b for b in body)
@@ -148,7 +151,8 @@ def script(c, acts):
     out.append("")
     framer = "%s_%s" % (c["F"], c["tag"]) if c["aux"] else c["F"]
     frame = c["s1"] if c["aux"] else c["f1"]
-    return "\n".join(out) + "\n", framer, frame, obs
+    second = "%s_%s" % (c["F"], c["tag2"]) if c["aux"] else None      # the acts live in both clones
+    return "\n".join(out) + "\n", (framer, second), frame, obs
 
 
 # ------------------------------------------------------------------------------------------------------------------
@@ -157,7 +161,7 @@ def script(c, acts):
 
 def renamings(c):
     return ([("framer", c[k]) for k in ("F", "G", "S")] + [("frame", c[k]) for k in ("f0", "f1", "g1", "s0", "s1")]
-            + [("tag", c["tag"]), ("actor", c["A"]), ("actor", "work"), ("actor", "n"), ("actor", "s")])
+            + [("tag", c["tag"]), ("tag", c["tag2"]), ("actor", c["A"]), ("actor", "work"), ("actor", "n"), ("actor", "s")])
 
 
 def _ren(rho, kind, n):
@@ -171,6 +175,7 @@ def ren_ctx(rho, c):
     for k in ("f0", "f1", "g1", "s0", "s1"):
         c[k] = _ren(rho, "frame", c[k])
     c["tag"] = _ren(rho, "tag", c["tag"])
+    c["tag2"] = _ren(rho, "tag", c["tag2"])
     c["A"] = _ren(rho, "actor", c["A"])
     return c
 
@@ -250,7 +255,7 @@ def observe(house, framer, frame, obs):
     fm = fr.frameNames.get(frame)
     if fm is None:
         return None, "no frame %s in framer %s" % (frame, framer)
-    its = {"enacts": iter(fm.enacts), "preacts": iter(fm.preacts)}
+    its = {"enacts": iter(fm.enacts), "preacts": iter(fm.preacts), "beacts": iter(fm.beacts)}
     out = []
     for (lst, key) in obs:
         try:
@@ -277,39 +282,45 @@ def check_row(job):
     c = row["ctx"]
     acts = [e["act"] for e in row["acts"]]
     paths = [[tuple(s) for s in e["path"]] for e in row["acts"]]
+    pathsb = [[tuple(s) for s in e.get("path2", ())] for e in row["acts"]]      # the same acts in the second clone
     divs = []
     nev = 0
     bad = set()       # acts that already disagree with the specification before any renaming
     for rho in [None] + list(rhos):
         if rho is None:
-            c2, acts2, paths2 = c, acts, paths
+            c2, acts2, paths2, pathsb2 = c, acts, paths, pathsb
         else:
             c2 = ren_ctx(rho, c)
             acts2 = [ren_act(rho, a) for a in acts]
             paths2 = [ren_path(rho, p) for p in paths]
-        text, framer, frame, obs = script(c2, acts2)
+            pathsb2 = [ren_path(rho, p) for p in pathsb]
+        text, framers, frame, obs = script(c2, acts2)
         label = "original" if rho is None else "renamed %s %s->%s" % (rho[0], rho[1], FRESHES[rho[0]])
         house, err = build(text, workdir)
         if house is None:
             divs.append({"kind": "exception", "action": "Build", "where": err.split("@")[-1] if "@" in err else "Builder.build",
                          "detail": "%s: %s" % (label if rho else "original", err.split(" @")[0]), "script": text, "ctx": c2})
             continue
-        got, err = observe(house, framer, frame, obs)
-        if got is None:
-            divs.append({"kind": "state-mismatch", "action": "Build", "where": "structure", "detail": "%s: %s" % (label, err), "script": text, "ctx": c2})
-            continue
-        for idx, (a, p, g) in enumerate(zip(acts2, paths2, got)):
-            nev += 1
-            want = ".".join(seg_text(s, a, idx) for s in p)
-            if g != want and idx not in bad:
-                if rho is None:
-                    bad.add(idx)
-                _, key, line = act_line(a, idx, "sz" if c2["aux"] else "fz")
-                what = "Resolve" if rho is None else "Rename(%s)" % rho[0]
-                kindtxt = ("%s %s%s" % (a["verb"], a["ref"]["form"], "" if a["verb"] != "do" else " via-" + a["ai"]["k"]))
-                divs.append({"kind": "table-mismatch", "action": what, "where": kindtxt,
-                             "detail": "%s: `%s` resolved to %s, specification says %s" % (label, line, g, want),
-                             "script": text, "ctx": c2, "expected": want, "actual": g})
+        for which, (framer, exp) in enumerate(((framers[0], paths2), (framers[1], pathsb2))):
+            if framer is None:
+                continue
+            got, err = observe(house, framer, frame, obs)
+            if got is None:
+                divs.append({"kind": "state-mismatch", "action": "Build", "where": "structure", "detail": "%s: %s" % (label, err), "script": text, "ctx": c2})
+                continue
+            for idx, (a, p, g) in enumerate(zip(acts2, exp, got)):
+                nev += 1
+                want = ".".join(seg_text(s, a, idx) for s in p)
+                if g != want and (which, idx) not in bad:
+                    if rho is None:
+                        bad.add((which, idx))
+                    _, key, line = act_line(a, idx, "sz" if c2["aux"] else "fz")
+                    what = "Resolve" if rho is None else "Rename(%s)" % rho[0]
+                    kindtxt = ("%s %s%s%s" % (a["verb"], a["ref"]["form"], "" if a["verb"] != "do" else " via-" + a["ai"]["k"],
+                                             " in second clone" if which else ""))
+                    divs.append({"kind": "table-mismatch", "action": what, "where": kindtxt,
+                                 "detail": "%s: `%s` in framer %s resolved to %s, specification says %s" % (label, line, framer, g, want),
+                                 "script": text, "ctx": c2, "expected": want, "actual": g})
     return nev, divs
 
 
@@ -320,7 +331,7 @@ def cfg_text(sets):
     for k in ("FIs", "OIs", "NIs", "CIs", "SOs", "SIs", "AIs", "AuxModes"):
         lines.append("  %s = %s" % (k, s(sets[k])))
     lines.append('  Fresh = "zz"')
-    for inv in ("Equivariant", "AbsoluteIndependent", "FreshUnused", "WellFormed", "ThroughNames"):
+    for inv in ("Equivariant", "BothClones", "AbsoluteIndependent", "FreshUnused", "WellFormed", "ThroughNames"):
         lines.append("INVARIANT " + inv)
     lines.append("CHECK_DEADLOCK FALSE")
     return "\n".join(lines) + "\n"
